@@ -132,6 +132,15 @@ def to_rdflib(t):
     raise ValueError(t)
 
 
+def from_rdflib_raw(o, graph_slot: bool = False):
+    """Like from_rdflib but without normalising xsd:string away (two Python-level distinct literals
+    stay distinct; needed when the *encoding* of corresponding inputs is compared)."""
+    import rdflib
+    if isinstance(o, rdflib.Literal):
+        return ("lit", str(o), o.language or None, str(o.datatype) if o.datatype else None)
+    return from_rdflib(o, graph_slot)
+
+
 def from_rdflib(o, graph_slot: bool = False):
     import rdflib
     from rdflib.graph import DATASET_DEFAULT_GRAPH_ID, Graph
